@@ -82,6 +82,10 @@ func (d *Doc) BytesXRefStream(useObjStm bool) []byte {
 				data = append(data, bytes.Repeat([]byte{' '}, n-len(data))...)
 			}
 		}
+		osParms := ""
+		if d.Override["Predictor"] != "" {
+			data, osParms = pngUp(data, 64), "/DecodeParms<</Predictor 12/Columns 64>>"
+		}
 		enc := deflate(data)
 		ents[osNr] = ent{1, b.Len(), 0}
 		nTxt, firstTxt := fmt.Sprint(len(inStm)), fmt.Sprint(prolog.Len())
@@ -91,7 +95,7 @@ func (d *Doc) BytesXRefStream(useObjStm bool) []byte {
 		if d.Override["First"] != "" {
 			firstTxt = d.Override["First"]
 		}
-		fmt.Fprintf(&b, "%d 0 obj\n<</Type/ObjStm/N %s/First %s/Filter/FlateDecode/Length %d>>\nstream\n", osNr, nTxt, firstTxt, len(enc))
+		fmt.Fprintf(&b, "%d 0 obj\n<</Type/ObjStm/N %s/First %s/Filter/FlateDecode%s/Length %d>>\nstream\n", osNr, nTxt, firstTxt, osParms, len(enc))
 		b.Write(enc)
 		b.WriteString("\nendstream\nendobj\n")
 	}
@@ -142,8 +146,13 @@ func (d *Doc) BytesXRefStream(useObjStm bool) []byte {
 			rows.Write(make([]byte, n-rows.Len()))
 		}
 	}
-	enc := deflate(rows.Bytes())
+	xdata := rows.Bytes()
 	extra := ""
+	if d.Override["Predictor"] != "" {
+		xdata = pngUp(xdata, 7)
+		extra += "/DecodeParms<</Predictor 12/Columns 7>>"
+	}
+	enc := deflate(xdata)
 	if d.Info != 0 {
 		extra += fmt.Sprintf("/Info %s", Ref(d.Info))
 	}
@@ -161,4 +170,24 @@ func (d *Doc) BytesXRefStream(useObjStm bool) []byte {
 	b.Write(enc)
 	fmt.Fprintf(&b, "\nendstream\nendobj\nstartxref\n%d\n%%%%EOF\n", xOff)
 	return b.Bytes()
+}
+
+// pngUp encodes data with the PNG Up predictor in rows of cols bytes (the last row zero padded is avoided:
+// data is padded with blanks to a whole number of rows first, harmless for object stream bodies; xref rows are
+// exactly 7 bytes wide).
+func pngUp(data []byte, cols int) []byte {
+	for len(data)%cols != 0 {
+		data = append(data, ' ')
+	}
+	var out bytes.Buffer
+	prev := make([]byte, cols)
+	for i := 0; i < len(data); i += cols {
+		row := data[i : i+cols]
+		out.WriteByte(2)
+		for j := range row {
+			out.WriteByte(row[j] - prev[j])
+		}
+		prev = row
+	}
+	return out.Bytes()
 }
